@@ -28,6 +28,10 @@ class References:
       if has_undef_overlaps:
         cigar = gfapy.AlignmentPlaceholder()
       else:
+        if i >= len(self.overlaps):
+          raise gfapy.InconsistencyError(
+              "Path: {}\n".format(self)+
+              "The number of overlaps does not match the number of segments")
         cigar = self.overlaps[i]
       retval.append([self.segment_names[i], self.segment_names[j], cigar])
     return retval
